@@ -480,7 +480,7 @@ theorem step_preserves_Inv (s : Obj) (op : Op) (h : Inv s) : Inv (step s op).1 :
     cases corr
     · simp only [Bool.false_eq_true, ↓reduceIte]
       split
-      · exact (getFF_spec g .fidelity false false s h).1.1
+      · exact (getCM_spec g false _ (getFF_spec g .fidelity false false s h).1.1).1.1
       · exact (getCM_spec g false s h).1.1
     · simp only [↓reduceIte]
       split
